@@ -64,6 +64,7 @@ def jobs_for(tier, rng):
         job = {"mdp": m, "kind": kind, "gamma": [1, 1] if kind in ("RVI", "PVI") else [1, 2], "eps": [1, 8],
                "test": "span", "calls": [2, 3], "mbs": 5, "shuffle": False,
                "interloper": {"jax_double_precision": k % 2 == 1, "verbose": 3 if k % 3 == 0 else 0, "gamma": 0.5},
+               "jdp": False if k % 3 == 1 else None,
                "tag": f"interloper-{kind}{k}"}
         if kind == "PVI":
             job.update({"period": 2, "clear": False})
